@@ -449,6 +449,20 @@ func opC10W2(raw json.RawMessage, o *Out) {
 		hv := c10RectVerts(c.F, c.G, h, true)
 		wits = append(wits, c10LoopWits(hv, inner, false)...)
 		rec.emit(reg, wits)
+		// the complement: Polygon.Invert() turns the shell inside out and the hole into an island shell;
+		// the same region built directly from oriented loops (clockwise shell, counter-clockwise island)
+		s0 := 1 << uint(c.PG-c.G)
+		hin := emb.FromFaceIJ(c.F, c.PG, h[0]*s0, h[1]*s0).Point()
+		iw := append(append([]c10Wit{}, wits...), c10LoopWits(hv, hin, false)...)
+		pi := s2.PolygonFromLoops([]*s2.Loop{s2.LoopFromPoints(c10RectVerts(c.F, c.G, c.A, true)), s2.LoopFromPoints(c10RectVerts(c.F, c.G, h, true))})
+		pi.Invert()
+		reg = c10PolygonRegion(pi, c10W2Cls("polygon/w2-hole/Invert()", c.F, c.G, c.A), fmt.Sprintf("%s minus hole %v, inverted", desc, h))
+		reg.w2, reg.inv = [][]int{shell, {c.F, c.G, h[0], h[1], h[2], h[3]}}, true
+		rec.emit(reg, iw)
+		po := s2.PolygonFromOrientedLoops([]*s2.Loop{s2.LoopFromPoints(c10Rev(c10RectVerts(c.F, c.G, c.A, true))), s2.LoopFromPoints(c10RectVerts(c.F, c.G, h, true))})
+		reg = c10PolygonRegion(po, c10W2Cls("polygon/w2-hole/oriented-complement", c.F, c.G, c.A), fmt.Sprintf("complement of %s plus island %v from oriented loops", desc, h))
+		reg.w2, reg.inv = [][]int{shell, {c.F, c.G, h[0], h[1], h[2], h[3]}}, true
+		rec.emit(reg, iw)
 	}
 	// sub-regions
 	la := s2.LoopFromPoints(c10RectVerts(c.F, c.G, c.A, true))
@@ -572,7 +586,13 @@ func c10EmitPolyline(rec *c10Rec, pl *s2.Polyline, cls, desc string) {
 		for _, t := range []float64{0.1, 0.25, 0.5, 0.75, 0.9} {
 			p := s2.Interpolate(t, vs[i], vs[i+1])
 			lat := s2.LatLngFromPoint(p).Lat.Radians()
-			rec.add(map[string]any{"ev": "pl", "latm": c10K(lat - slack), "latp": c10K(lat + slack), "rect": c10RectKeys(reg.rect)},
+			// distance from the cap axis, reduced by a 1e-12 rad slack (the interpolated point is within
+			// ~1e-15 of the edge; the cap of the rectangle is known to be unpadded)
+			d := float64(s2.ChordAngleBetweenPoints(reg.capb.Center(), p))
+			th := math.Max(0, 2*math.Asin(math.Min(1, math.Sqrt(d)/2))-1e-12)
+			hh := 2 * math.Sin(th/2)
+			rec.add(map[string]any{"ev": "pl", "latm": c10K(lat - slack), "latp": c10K(lat + slack), "rect": c10RectKeys(reg.rect),
+				"distm": c10K(math.Min(hh*hh, d*(1-1e-12))), "capr": c10K(s2.VerifC10CapChord(reg.capb))},
 				map[string]any{"sub": sub, "cls": cls, "desc": fmt.Sprintf("%s edge %d t=%v lat=%v bound %v", desc, i, t, lat, reg.rect)})
 			rec.o.Count("polyline_interior_events")
 		}
@@ -1201,6 +1221,47 @@ func opC10Rand(raw json.RawMessage, o *Out) {
 			reg := ix.Region()
 			rec.emit(&c10Region{kind: "index", cls: "shapeindex-region", rect: reg.RectBound(), capb: reg.CapBound(), cov: reg.CellUnionBound(),
 				own: func(p s2.Point) bool { return isV[p] || q.Contains(p) }, desc: fmt.Sprintf("ShapeIndexRegion of %d shapes (seed item %d)", ns, it)}, wits)
+		case "longline":
+			// polylines that span more than a hemisphere: (a) a ring of vertices on a parallel of a seed-chosen
+			// frame plus a long edge (~100..170 degrees) passing on the far side, (b) chains of lattice
+			// points with edges of 90..170 degrees.  Points inside the edges are probes of the bounds.
+			var vs []s2.Point
+			fx := c10RandPoint(rnd)
+			fy := c10Norm(fx.Ortho())
+			fz := c10Norm(fx.Cross(fy.Vector))
+			if rnd.Intn(3) == 0 {
+				fx, fy, fz = c10Norm(r3.Vector{X: 1}), c10Norm(r3.Vector{Y: 1}), c10Norm(r3.Vector{Z: 1})
+			}
+			frame := func(latDeg, lngDeg float64) s2.Point {
+				p := s2.PointFromLatLng(s2.LatLngFromDegrees(latDeg, lngDeg))
+				return c10Norm(fx.Mul(p.X).Add(fy.Mul(p.Y)).Add(fz.Mul(p.Z)))
+			}
+			if rnd.Intn(2) == 0 {
+				k := 4 + rnd.Intn(6)
+				lat := 40 + 35*rnd.Float64()
+				for j := 0; j < k; j++ {
+					vs = append(vs, frame(lat, -180+360*float64(j)/float64(k)))
+				}
+				south := -5 - 40*rnd.Float64()
+				span := 100 + 70*rnd.Float64()
+				l0 := -180 + 360*rnd.Float64()
+				vs = append(vs, frame(south, l0), frame(south, l0+span))
+			} else {
+				n := 3 + rnd.Intn(4)
+				for len(vs) < n {
+					p := emb.P3{rnd.Intn(5) - 2, rnd.Intn(5) - 2, rnd.Intn(5) - 2}
+					if p == (emb.P3{}) {
+						continue
+					}
+					q := emb.Unit(p)
+					if len(vs) > 0 && (q.Add(vs[len(vs)-1].Vector).Norm() < 0.17 || q == vs[len(vs)-1]) {
+						continue // nearly antipodal to or equal to the previous vertex
+					}
+					vs = append(vs, q)
+				}
+			}
+			pl := s2.Polyline(vs)
+			c10EmitPolyline(rec, &pl, "polyline/long", fmt.Sprintf("polyline %v", vs))
 		case "polyline":
 			n := 2 + rnd.Intn(6)
 			var vs []s2.Point
